@@ -351,9 +351,45 @@ func run(line string) string {
 			showBlock(b.ArmoredSignature), hx.Hex(rest))
 	case "krtok":
 		return krTok(o.List("toks"))
+	case "opqser": // OpaquePacket.Serialize of everything the OpaqueReader parsed without error
+		or := packet.NewOpaqueReader(bytes.NewReader(data))
+		var out bytes.Buffer
+		for i := 0; i <= len(data)+1; i++ {
+			op, err := or.Next()
+			if err != nil {
+				break
+			}
+			if op.Serialize(&out) != nil {
+				return "err:serialize"
+			}
+		}
+		return "ser=" + hx.Hex(out.Bytes())
+	case "osubser": // OpaqueSubpacket.Serialize of the subpackets parsed before the first error
+		subs, _ := packet.OpaqueSubpackets(data)
+		var out bytes.Buffer
+		for _, sp := range subs {
+			if sp.Serialize(&out) != nil {
+				return "err:serialize"
+			}
+		}
+		return "ser=" + hx.Hex(out.Bytes())
 	case "kr":
 		el, _ := openpgp.ReadKeyRing(bytes.NewReader(data))
 		touch(el)
+		pr := packet.NewReader(bytes.NewReader(data)) // the exported single-entity entry point on the same bytes
+		for i := 0; i <= len(data)+1; i++ {
+			e, err := openpgp.ReadEntity(pr)
+			if err == io.EOF {
+				break
+			}
+			if err != nil {
+				if _, err2 := pr.Next(); err2 == io.EOF {
+					break
+				}
+				continue
+			}
+			touch(openpgp.EntityList{e})
+		}
 		return "no-panic"
 	case "akr":
 		el, _ := openpgp.ReadArmoredKeyRing(bytes.NewReader(data))
@@ -522,6 +558,22 @@ func touch(el openpgp.EntityList) {
 			continue
 		}
 
+		e.PrimaryKey.KeyIdString()
+		e.PrimaryKey.KeyIdShortString()
+		e.PrimaryKey.BitLength()
+		e.PrimaryKey.CanSign()
+		for _, id := range e.Identities {
+			if id.SelfSignature != nil {
+				id.SelfSignature.KeyExpired(now)
+			}
+		}
+		for _, sk := range e.Subkeys {
+			sk.PublicKey.KeyIdString()
+			sk.PublicKey.BitLength()
+			if sk.Sig != nil {
+				sk.Sig.KeyExpired(now)
+			}
+		}
 		el.KeysById(e.PrimaryKey.KeyId)
 		el.KeysByIdUsage(e.PrimaryKey.KeyId, packet.KeyFlagSign)
 		el.DecryptionKeys()
@@ -529,6 +581,17 @@ func touch(el openpgp.EntityList) {
 		e.Serialize(&buf)
 		_ = now
 	}
+}
+
+// table coverage bookkeeping (reported as table.<name>=hit/total)
+var tHit = map[string]map[string]bool{}
+var tSize = map[string]int{"packet-tag": 15, "length-form": 8, "sig-subpacket-type": 13, "sig-hash-id": 8, "sig-pk-algo": 5, "s2k-mode": 4, "poke-field": 29}
+
+func coverT(t, e string) {
+	if tHit[t] == nil {
+		tHit[t] = map[string]bool{}
+	}
+	tHit[t][e] = true
 }
 
 // ------------------------------------------------------------------ generators: packet framing
@@ -564,10 +627,12 @@ func frame(r *hx.Rand, g *hx.Gen, tag int, body []byte) []byte {
 			form = 2
 		}
 		g.Stat(fmt.Sprintf("frame.new%d", form))
+		coverT("length-form", fmt.Sprintf("new%d", form))
 		out = append([]byte{byte(0xC0 | tag&0x3f)}, newLen(r, n, form)...)
 		return append(out, body...)
 	case k < 5: // new format, partial chain
 		g.Stat("frame.partial")
+		coverT("length-form", "partial")
 		out = []byte{byte(0xC0 | tag&0x3f)}
 		rest := body
 		for len(rest) > 0 && r.Chance(5, 6) {
@@ -597,6 +662,7 @@ func frame(r *hx.Rand, g *hx.Gen, tag int, body []byte) []byte {
 			lt = 2
 		}
 		g.Stat(fmt.Sprintf("frame.old%d", lt))
+		coverT("length-form", fmt.Sprintf("old%d", lt))
 		out = []byte{byte(0x80 | (tag&0x0f)<<2 | lt)}
 		switch lt {
 		case 0:
@@ -609,6 +675,7 @@ func frame(r *hx.Rand, g *hx.Gen, tag int, body []byte) []byte {
 		return append(out, body...)
 	}
 	g.Stat("frame.indeterminate")
+	coverT("length-form", "old3")
 	return append([]byte{byte(0x80 | (tag&0x0f)<<2 | 3)}, body...)
 }
 
@@ -636,6 +703,13 @@ func genOpq(g *hx.Gen) {
 		if r.Chance(1, 4) {
 			tag = r.Intn(64)
 		}
+		known := "unknown"
+		for _, kt := range knownTags {
+			if kt == tag {
+				known = fmt.Sprint(tag)
+			}
+		}
+		coverT("packet-tag", known)
 		out = append(out, frame(r, g, tag, r.Bytes(bodySize(r)))...)
 	}
 	switch r.Intn(10) {
@@ -764,6 +838,17 @@ func sigBody(r *hx.Rand, g *hx.Gen, depth int, sigType byte) []byte {
 	case 2:
 		hash = byte(r.PickInt(0, 4, 5, 6, 7, 12, 100))
 	}
+	if hashIdOK(hash) {
+		coverT("sig-hash-id", fmt.Sprint(hash))
+	} else {
+		coverT("sig-hash-id", "unknown")
+	}
+	switch algo {
+	case 1, 3, 17, 19:
+		coverT("sig-pk-algo", fmt.Sprint(algo))
+	default:
+		coverT("sig-pk-algo", "unknown")
+	}
 	var hashed, unhashed []byte
 	ctimeIn := 0 // 0 hashed, 1 unhashed, 2 missing
 	if r.Chance(1, 15) {
@@ -835,6 +920,14 @@ func sigBody(r *hx.Rand, g *hx.Gen, depth int, sigType byte) []byte {
 		default:
 			s = sub(r, 2|crit, be32(r.U32())) // a second creation time
 		}
+		if len(s) >= 2 && s[0] != 0 && s[0] < 192 {
+			switch ty := s[1] & 0x7f; ty {
+			case 2, 3, 9, 11, 16, 21, 22, 25, 27, 29, 30, 32:
+				coverT("sig-subpacket-type", fmt.Sprint(ty))
+			default:
+				coverT("sig-subpacket-type", "unknown")
+			}
+		}
 		if r.Chance(2, 3) {
 			hashed = append(hashed, s...)
 		} else {
@@ -869,6 +962,36 @@ func sigBody(r *hx.Rand, g *hx.Gen, depth int, sigType byte) []byte {
 	return out
 }
 
+// a well-formed v4 signature whose only extra subpacket is of the given type, in the given area
+func sigWith(r *hx.Rand, ty byte, hashedArea bool) []byte {
+	content := map[byte][]byte{2: be32(7), 3: be32(1), 9: be32(2), 11: {9, 7}, 16: {1, 2, 3, 4, 5, 6, 7, 8}, 21: {8, 2}, 22: {1}, 25: {1}, 27: {3}, 29: {1, 'x'}, 30: {1}}[ty&0x7f]
+	if ty&0x7f == 32 {
+		inner := []byte{4, 0x19, 1, 8, 0, 6}
+		inner = append(inner, sub(r, 2, be32(5))...)
+		inner = append(inner, 0, 0, 0xab, 0xcd)
+		inner = append(inner, mpi(r, 8)...)
+		content = inner
+	}
+	if content == nil {
+		content = []byte{1, 2}
+	}
+	hashed := sub(r, 2, be32(1000))
+	var unhashed []byte
+	if ty&0x7f != 2 || !hashedArea {
+		if hashedArea {
+			hashed = append(hashed, sub(r, ty, content)...)
+		} else {
+			unhashed = sub(r, ty, content)
+		}
+	}
+	out := []byte{4, 0x18, 1, 8, byte(len(hashed) >> 8), byte(len(hashed))}
+	out = append(out, hashed...)
+	out = append(out, byte(len(unhashed)>>8), byte(len(unhashed)))
+	out = append(out, unhashed...)
+	out = append(out, 1, 2)
+	return append(out, mpi(r, 9)...)
+}
+
 func genSig(g *hx.Gen) {
 	r := g.R
 	st := byte(r.PickInt(0, 1, 0x10, 0x13, 0x18, 0x19, 0x20))
@@ -880,9 +1003,23 @@ func genSig(g *hx.Gen) {
 	g.Emit("sig data=%s", hx.Hex(b))
 }
 
+func hashIdOK(h byte) bool {
+	switch h {
+	case 1, 2, 3, 8, 9, 10, 11:
+		return true
+	}
+	return false
+}
+
 func genS2k(g *hx.Gen) {
 	r := g.R
 	b := []byte{byte(r.PickInt(0, 1, 3, 3, 2, 4, 100, 101)), byte(r.PickInt(1, 2, 3, 8, 9, 10, 11, 0, 4, 12))}
+	switch b[0] {
+	case 0, 1, 3:
+		coverT("s2k-mode", fmt.Sprint(b[0]))
+	default:
+		coverT("s2k-mode", "unknown")
+	}
 	b = append(b, r.Bytes(r.PickInt(0, 0, 1, 7, 8, 9, 10, 12))...)
 	if r.Chance(1, 10) {
 		b = b[:r.Intn(3)]
@@ -1075,6 +1212,13 @@ func mutate(r *hx.Rand, g *hx.Gen, d []byte) []byte {
 				w.Close()
 			}
 			d = frame(r, g, 8, append([]byte{algo}, zb.Bytes()...))
+			if r.Chance(1, 6) { // nesting around packet.Reader's limit of 32 pushed readers
+				depth := r.PickInt(30, 31, 32, 33, 40)
+				g.Stat(fmt.Sprintf("mut.nest=%d", depth))
+				for i := 0; i < depth; i++ {
+					d = opaque(8, append([]byte{0}, d...)) // compression algorithm 0: stored
+				}
+			}
 		}
 	}
 	return d
@@ -1439,6 +1583,7 @@ func pokeFields(r *hx.Rand, g *hx.Gen, d []byte) []byte {
 		binary.BigEndian.PutUint32(body[f.off:], uint32(v))
 	}
 	g.Stat("poke." + f.name)
+	coverT("poke-field", f.name)
 	// how much follows the field: enough for what it announces (in bytes, or bits for MPIs), just short, or as it was
 	need := v
 	if strings.Contains(f.name, "bits") {
@@ -1671,8 +1816,38 @@ func genFinding(g *hx.Gen) {
 }
 
 func gen(g *hx.Gen) {
+	defer func() {
+		for t, total := range tSize {
+			g.StatN(fmt.Sprintf("table.%s=%d/%d", t, len(tHit[t]), total), 1)
+		}
+	}()
 	loadSeeds()
-	n := g.Count(9000, 150000)
+	// sweeps: every header form × every known tag (+ one unknown); every subpacket type × area × critical bit
+	for _, tag := range append(append([]int(nil), knownTags...), 60) {
+		for form := 0; form < 9; form++ {
+			body := g.R.Bytes(g.R.PickInt(0, 1, 191, 192, 300))
+			var p []byte
+			for tries := 0; tries < 40; tries++ { // frame picks the form at random: draw until each has occurred
+				p = frame(g.R, g, tag, body)
+				if tries >= form {
+					break
+				}
+			}
+			g.Stat(fmt.Sprintf("pair.tag%d+form", tag))
+			g.Stat("opq")
+			g.Emit("opq data=%s", hx.Hex(append(p, frame(g.R, g, 13, []byte("u"))...)))
+		}
+	}
+	for _, ty := range []byte{2, 3, 9, 11, 16, 21, 22, 25, 27, 29, 30, 32, 100, 2, 3, 9, 11, 16, 21, 22, 25, 27, 29, 30, 32, 100, 2, 3, 9, 11, 16, 21, 22, 25, 27, 29, 30, 32, 100} {
+		for _, hashedArea := range []bool{true, false} {
+			for _, crit := range []byte{0, 0x80} {
+				g.Stat(fmt.Sprintf("pair.sub%d+hashed=%t+crit=%d", ty, hashedArea, crit>>7))
+				g.Stat("sig")
+				g.Emit("sig data=%s", hx.Hex(sigWith(g.R, ty|crit, hashedArea)))
+			}
+		}
+	}
+	n := g.Count(8500, 150000)
 	r := g.R
 	for i := 0; i < n; i++ {
 		if r.Chance(1, 400) {
@@ -1685,6 +1860,30 @@ func gen(g *hx.Gen) {
 		}
 		if r.Chance(1, 25) {
 			genLiteral(g)
+			continue
+		}
+		if r.Chance(1, 30) { // serializers of the opaque layer: parse then re-serialise
+			if r.Bool() {
+				var out []byte
+				for i, n := 0, r.Range(0, 3); i < n; i++ {
+					out = append(out, frame(r, g, r.Intn(64), r.Bytes(bodySize(r)))...)
+				}
+				if r.Chance(1, 5) && len(out) > 0 {
+					out = out[:r.Intn(len(out))]
+				}
+				g.Stat("opqser")
+				g.Emit("opqser data=%s", hx.Hex(out))
+			} else {
+				var out []byte
+				for i, n := 0, r.Range(0, 4); i < n; i++ {
+					out = append(out, sub(r, byte(r.Intn(256)), r.Bytes(r.PickInt(0, 1, 190, 191, 192, r.Range(0, 30))))...)
+				}
+				if r.Chance(1, 5) && len(out) > 0 {
+					out = out[:r.Intn(len(out))]
+				}
+				g.Stat("osubser")
+				g.Emit("osubser data=%s", hx.Hex(out))
+			}
 			continue
 		}
 		switch k := r.Intn(40); {
